@@ -7,6 +7,7 @@ package harness
 import (
 	"errors"
 	"fmt"
+	"reflect"
 	"runtime"
 	"strconv"
 	"strings"
@@ -505,9 +506,107 @@ func TestC10Wait(t *testing.T) { Check(t, c10Wait) }
 type c10RestoreCase struct {
 	Shape string `json:"shape"` // void, err, raw, chan
 	Polls int    `json:"polls"` // polls before the restore
+	// Done: the abandoned command has already reported completion ("nil" or "err") when the host restores, but no Next call
+	// has taken notice of it yet ("" = it is still running)
+	Done string `json:"done,omitempty"`
+}
+
+// runC10RestoreDone: the pending command reports completion - success or an error - and the host, instead of calling Next,
+// restores a valid snapshot. The restore succeeds (the snapshot is valid), the run starts over, the abandoned command's
+// outcome is nobody's business any more, and the statement's second execution is a new invocation that is waited for.
+func runC10RestoreDone(c c10RestoreCase) Verdict {
+	src := "title: Start\n---\nM0\n<<k {$n}>>\nM1\n<<jump Other>>\n===\ntitle: Other\n---\nM2\n===\n"
+	storer := newRecStorer()
+	storer.vals["n"] = numVal(1)
+	dr, err := ysgo.NewDialogueRunner(storer, "abc", strings.NewReader(src))
+	if err != nil {
+		return failf("script does not load: %v", err)
+	}
+	var chans []chan error
+	var invoked []string
+	handler := func(n int) chan error {
+		invoked = append(invoked, fmt.Sprintf("k(%d)", n))
+		ch := make(chan error, 1)
+		chans = append(chans, ch)
+		return ch
+	}
+	if c.Shape == "raw" {
+		dr.AddCommand("k", func(args []*variable.Value) <-chan error { return handler(int(*args[0].Number)) })
+	} else if err := dr.ConvertAndAddCommand("k", handler); err != nil {
+		return failf("registration failed: %v", err)
+	}
+	snap := dr.Snapshot()
+	var history []string
+	next := func() string {
+		r, ok := timedNext(dr, 10*time.Second)
+		switch {
+		case !ok:
+			history = append(history, "BLOCKED")
+		case r.p != nil:
+			history = append(history, fmt.Sprintf("PANIC %v", r.p))
+		case errors.Is(r.err, ysgo.ErrWaitingForCommandCompletion):
+			history = append(history, "wait")
+		case r.err != nil:
+			history = append(history, "err "+r.err.Error())
+		case r.el == nil:
+			history = append(history, "end")
+		case r.el.Line != nil:
+			history = append(history, "line "+r.el.Line.Text)
+		default:
+			history = append(history, "options")
+		}
+		return history[len(history)-1]
+	}
+	want := []string{"line M0"}
+	for p := 0; p <= c.Polls; p++ {
+		want = append(want, "wait")
+	}
+	for _, w := range want {
+		if got := next(); got != w {
+			return failf("before the restore: expected %q, got %q (history %v)", w, got, history)
+		}
+	}
+	if len(chans) != 1 {
+		return failf("the command statement ran once, its handler was invoked %d times", len(chans))
+	}
+	if c.Done == "err" {
+		chans[0] <- errors.New("boom of the abandoned command")
+	} else {
+		chans[0] <- nil
+	}
+	if err := dr.RestoreAt(snap); err != nil {
+		return failf("RestoreAt of a valid snapshot failed while a command that had just reported %q was pending: %v (history %v)", c.Done, err, history)
+	}
+	if again := dr.Snapshot(); again.CurrentNode != snap.CurrentNode || !reflect.DeepEqual(again.VisitedNodes, snap.VisitedNodes) {
+		return failf("the snapshot taken right after the restore differs from the restored one: %+v vs %+v", again, snap)
+	}
+	storer.SetNumberValue("n", 2)
+	if got := next(); got != "line M0" {
+		return failf("after the restore the run starts over with the line M0, got %q (history %v)", got, history)
+	}
+	// the second execution of the statement: a new invocation, pending until the harness completes it
+	if got := next(); got != "wait" {
+		return failf("after the restore the command statement is executed again and is pending, got %q (history %v, invocations %v)", got, history, invoked)
+	}
+	if got := next(); got != "wait" {
+		return failf("the second invocation has not completed, yet Next gave %q (history %v)", got, history)
+	}
+	if len(chans) != 2 || strings.Join(invoked, " ") != "k(1) k(2)" {
+		return failf("two executions of the statement (n = 1, then 2): handler invocations %v", invoked)
+	}
+	chans[1] <- nil
+	for _, w := range []string{"line M1", "line M2", "end", "end"} {
+		if got := next(); got != w {
+			return failf("after the second invocation completed: expected %q, got %q (history %v)", w, got, history)
+		}
+	}
+	return Verdict{NonTrivial: true, Classes: []string{"shape=" + c.Shape, "abandoned-after-completion=" + c.Done}}
 }
 
 func runC10Restore(c c10RestoreCase) Verdict {
+	if c.Done != "" {
+		return runC10RestoreDone(c)
+	}
 	src := "title: Start\n---\nM0\n<<k {$w} {$n}>>\nM1\n===\n"
 	storer := newRecStorer()
 	storer.vals["w"], storer.vals["n"] = strVal("first"), numVal(1)
@@ -686,7 +785,11 @@ func runC10Restore(c c10RestoreCase) Verdict {
 var c10Restore = Register(Prop[c10RestoreCase]{
 	ID: "C10", Name: "restore-while-pending",
 	Gen: func(t *rapid.T) c10RestoreCase {
-		return c10RestoreCase{Shape: rapid.SampledFrom([]string{"void", "err", "raw", "chan"}).Draw(t, "shape"), Polls: rapid.IntRange(0, 3).Draw(t, "polls")}
+		c := c10RestoreCase{Shape: rapid.SampledFrom([]string{"void", "err", "raw", "chan"}).Draw(t, "shape"), Polls: rapid.IntRange(0, 3).Draw(t, "polls")}
+		if (c.Shape == "raw" || c.Shape == "chan") && rapid.IntRange(0, 2).Draw(t, "completed") == 0 {
+			c.Done = rapid.SampledFrom([]string{"nil", "err"}).Draw(t, "outcome")
+		}
+		return c
 	},
 	Run: runC10Restore,
 })
